@@ -5,7 +5,7 @@
 import Lean
 namespace Crs
 open Lean in
-macro "b!" s:str : term => do
+macro:max "b!" s:str : term => do
   let cs : Array (TSyntax `term) := (s.getString.toList.map (fun c => (Syntax.mkCharLit c : TSyntax `term))).toArray
   `(([$cs,*] : List Char))
 end Crs
